@@ -1,0 +1,52 @@
+//go:build verif
+
+// Machine-checked contracts of the text helpers' lifts (C18): each operator is ro.Map around one call of the package's
+// helper with the item (and the operator's parameters); the lambda returns the helper's result and computes nothing else.
+// The helpers themselves (word splitting by regular expression, Unicode case mapping) are abstracted as uninterpreted
+// functions: what they compute, and that the string flavour computes the same, is outside this verifier (string theory).
+// Comments only.
+
+package robytes
+
+//@ pure toCamelCase
+//@ pure capitalize
+//@ pure ellipsis
+//@ pure kebabCase
+//@ pure pascalCase
+//@ pure snakeCase
+//@ pure random
+
+//@ func CamelCase$1
+//@   props C18
+//@   binds value
+//@   ensures [lifts-the-helper-over-the-item|C18] result == toCamelCase(value)
+
+//@ func Capitalize$1
+//@   props C18
+//@   binds value
+//@   ensures [lifts-the-helper-over-the-item|C18] result == capitalize(value)
+
+//@ func Ellipsis$1
+//@   props C18
+//@   binds value length
+//@   ensures [lifts-the-helper-over-the-item-and-the-length|C18] result == ellipsis(value, length)
+
+//@ func KebabCase$1
+//@   props C18
+//@   binds value
+//@   ensures [lifts-the-helper-over-the-item|C18] result == kebabCase(value)
+
+//@ func PascalCase$1
+//@   props C18
+//@   binds value
+//@   ensures [lifts-the-helper-over-the-item|C18] result == pascalCase(value)
+
+//@ func SnakeCase$1
+//@   props C18
+//@   binds value
+//@   ensures [lifts-the-helper-over-the-item|C18] result == snakeCase(value)
+
+//@ func Random$1
+//@   props C18
+//@   binds size charset
+//@   ensures [draws-a-string-of-the-configured-size-and-charset|C18] result == random(size, charset)
